@@ -386,7 +386,11 @@ func (s *CDX) nodeToComponent(n *sbom.Node) *cdx.Component {
 			case int32(sbom.SoftwareIdentifierType_PURL):
 				c.PackageURL = n.Identifiers[idType]
 			case int32(sbom.SoftwareIdentifierType_CPE23):
-				c.CPE = n.Identifiers[idType]
+				// CPE 2.3 takes precedence, but an empty value must not erase a
+				// CPE 2.2 seen earlier: map iteration order is random.
+				if cpe := n.Identifiers[idType]; cpe != "" {
+					c.CPE = cpe
+				}
 			case int32(sbom.SoftwareIdentifierType_CPE22):
 				// TODO(degradation): Only one CPE is supported in CDX
 				if c.CPE == "" {
